@@ -4,8 +4,8 @@
   growth / rotation, insertion into the newest sub-filter), and the writer's state stays small
   enough for every footer field.
 -/
-import PyProb.Lemmas.Reference
-import PyProb.Lemmas.WFOps
+import PyProb.Lemmas.ReferenceBloom
+import PyProb.Lemmas.WFOpsBloom
 
 namespace PyProb
 
